@@ -318,3 +318,58 @@ def run(m):
         bad = ("lax mode holds a refused value", held)
     return {"failing": bad is not None, "witness": "namespace-limit", "call": repr(bad) if bad else "limit sweep", "result": "ok" if bad is None else "limit not honoured"}
 '''
+
+
+@structural("C07", "limited-stream-invariant")
+def limited_stream_invariant():
+    """LimitedStringIO keeps `size <= limit` as a CLASS invariant: the counter and the underlying
+    stream are written by `write` only (whose contract checks the limit before the text goes
+    out); no other method of the class, and no code outside it, adds to `size` or writes to
+    the base stream behind it"""
+    import ast
+    from pyvc import flow, load
+    obs = []
+    mod = load.get_module("liquid.output")
+    cls = mod.classes["LimitedStringIO"]
+    for fn in [f for f in cls.body if isinstance(f, (ast.FunctionDef, ast.AsyncFunctionDef))]:
+        stores = [ast.unparse(st_)[:60] for st_ in ast.walk(fn) if isinstance(st_, (ast.Assign, ast.AugAssign)) and any(flow.dotted(t) == "self.size" for t in (st_.targets if isinstance(st_, ast.Assign) else [st_.target]))]
+        base_writes = [ast.unparse(c_)[:60] for c_ in flow.calls(fn) if flow.dotted(c_.func) in ("super().write", "StringIO.write", "super().writelines", "StringIO.writelines")]
+        if fn.name in ("__init__", "write"):
+            continue
+        obs.append(flow.ob(f"LimitedStringIO.{fn.name}:does-not-count-or-write-behind-the-limit-check", not stores and not base_writes, f"size stores: {stores}; base writes: {base_writes}", replay_schema="code", replay_extra={"code": REPLAY_NESTED_BUFFERS}))
+    obs.append(flow.ob("LimitedStringIO.write:is-the-only-writer", load._last_def(cls.body, "write") is not None, "write defined"))
+    # outside the class nothing assigns `.size` of a buffer
+    outside = []
+    for m in load.all_modules():
+        if m == "liquid.output":
+            continue
+        for st_ in ast.walk(load.get_module(m).tree):
+            if isinstance(st_, (ast.Assign, ast.AugAssign)):
+                for t in (st_.targets if isinstance(st_, ast.Assign) else [st_.target]):
+                    if isinstance(t, ast.Attribute) and t.attr == "size" and not flow.dotted(t).startswith("self."):
+                        outside.append(f"{m}:{st_.lineno}")
+    obs.append(flow.ob("no-code-outside-the-class-sets-a-buffers-size", not outside, str(outside)))
+    return obs
+
+
+REPLAY_NESTED_BUFFERS = r'''
+def run(m):
+    import asyncio
+    from liquid import Environment
+    from liquid.exceptions import OutputStreamLimitError
+    src = "head {% for i in (1..3) %}{% ifchanged %}{% ifchanged %}{{ i }}xxxxxxxxxx{% endifchanged %}{% endifchanged %}{% endfor %}"
+    full = len(Environment().from_string(src).render().encode())
+    bad = []
+    for limit in range(0, full + 3):
+        class E(Environment):
+            output_stream_limit = limit
+        for a in (False, True):
+            t = E().from_string(src)
+            try:
+                out = asyncio.run(t.render_async()) if a else t.render()
+                if len(out.encode()) > limit:
+                    bad.append((limit, a, len(out.encode())))
+            except OutputStreamLimitError:
+                pass
+    return {"violated": bool(bad), "observed": bad[:4], "witness": "nested-buffer-output-exceeds-the-limit"}
+'''
